@@ -386,11 +386,19 @@ func (o *orch) run() int {
 			merged.Samples = append(merged.Samples, r.res.Samples...)
 		}
 	}
+	// A worker that failed (watchdog, crash of the harness process) makes the batch inconclusive - unless other workers
+	// brought violations: those are still confirmed one by one in a fresh process below and reported; the exit code is 2
+	// only when nothing confirmed remains. (A change that makes one arm of a check hang must not hide what another arm
+	// of the same check found.)
+	infraSeen := false
 	if len(infra) > 0 {
 		for _, e := range infra {
 			fmt.Fprintln(os.Stderr, "INFRA:", e)
 		}
-		return 2
+		infraSeen = true
+		if len(merged.Violations) == 0 {
+			return 2
+		}
 	}
 	if merged.Runs == 0 {
 		fatal2("no runs executed")
@@ -434,7 +442,8 @@ func (o *orch) run() int {
 			dbg := filepath.Join(verifDir, "replays", fmt.Sprintf("NONREPRO-%s-%d-%d.json", v.Property, v.Seed, v.Run))
 			b, _ := json.MarshalIndent(rp, "", " ")
 			os.WriteFile(dbg, b, 0o644)
-			return 2
+			infraSeen = true
+			continue
 		}
 		isKnown := false
 		for _, f := range known {
@@ -475,6 +484,9 @@ func (o *orch) run() int {
 	}
 	fmt.Printf("check %s tier=%s seed=%d: runs=%d nontrivial=%d distinct=%d discarded=%d violations=%d known_hit=%d wall=%.1fs (build %.1fs)\n",
 		o.c.Property, o.tier, o.seed, merged.Runs, merged.Nontrivial, len(hashes), merged.Discarded, nViol, len(knownHit), wall, o.buildS)
+	if exit == 0 && infraSeen {
+		return 2
+	}
 	return exit
 }
 
